@@ -1,7 +1,7 @@
 (* Prop_C14.v — property theorems for C14, and nothing else: each statement is closed
    by `exact <lemma>` and followed by Print Assumptions. *)
 From Dig Require Import Base Sig State Graph GraphProofs Register Resolve Run Spec Check
-  ErrTable Err ErrTableCheck GoTypes Parse RunRaw P_Frame P_Term P_Parse.
+  ErrTable Err ErrTableCheck GoTypes Parse RunRaw P_Frame P_Term P_Parse P_Glue.
 
 (* ---- C14: no Go value, signature, tag or option makes the parse stage panic;
         no history makes the model reach a branch in which dig would panic;
@@ -19,3 +19,14 @@ Theorem C14_holds : forall cfg b du h, wf_scopes h = true -> wf_keys h = true ->
   chk_C14 h (map obs_of (run cfg b du h)) = [].
 Proof. exact P_Term.chk_C14_nil. Qed.
 Print Assumptions C14_holds.
+
+(* ---- the same for every history dig's own parser produces: `raw_only rh` says that
+        each operation of rh is a Scope call or a Provide / Decorate / Invoke of an
+        arbitrary Go value of the grammar (GoTypes) with arbitrary options;
+        `lower_op` parses it (Parse / RunRaw).  No well-formedness premise on keys
+        is left: the parser establishes it (P_Glue.lowered_wf) ---- *)
+Theorem C14_holds_raw : forall cfg b du rh, raw_only rh ->
+  wf_scopes (map lower_op rh) = true ->
+  chk_C14 (map lower_op rh) (map obs_of (run cfg b du (map lower_op rh))) = [].
+Proof. exact P_Glue.C14_raw. Qed.
+Print Assumptions C14_holds_raw.
